@@ -7,9 +7,9 @@ set -u
 D=$(readlink -f "$1"); shift
 V=$(dirname "$(dirname "$(readlink -f "$0")")")/
 W=$(mktemp -d /tmp/seedrun.XXXXXX)
-trap 'git -C /repo worktree remove --force "$W/tree" >/dev/null 2>&1; rm -rf "$W"' EXIT
-git -C /repo worktree add -q --detach "$W/tree" HEAD || exit 2
-cd "$W/tree"
+trap 'git -C /repo worktree remove --force "$W/t$$" >/dev/null 2>&1; rm -rf "$W"' EXIT
+git -C /repo worktree add -q --detach "$W/t$$" HEAD || exit 2
+cd "$W/t$$"
 PBR_VERSION=0.0.0 /venv/bin/python "$D"/demo.py >/dev/null 2>&1; clean=$?
 git apply "$D/patch.diff" || { echo "PATCH DOES NOT APPLY"; exit 2; }
 tests=$(/venv/bin/python -m pytest -q -p no:cacheprovider 2>&1 | tail -1)
@@ -19,6 +19,6 @@ ids="$@"
 if [ -z "$ids" ]; then ids=$(/venv/bin/python -c "import json,sys;print(json.load(open('$D/meta.json'))['property'])"); fi
 cd "$V"
 for id in $ids; do
-  out=$(CGSMILES_TREE="$W/tree" VERIF_OUT="$W/out" ./check $id --tier ${TIER:-quick} 2>&1); rc=$?
+  out=$(CGSMILES_TREE="$W/t$$" VERIF_OUT="$W/out" ./check $id --tier ${TIER:-quick} 2>&1); rc=$?
   echo "  check $id exit=$rc $(echo "$out" | grep -m2 'failure kind' | cut -c1-260 | tr '\n' ' ')"
 done
